@@ -37,7 +37,7 @@ fn install(k: &mut Kernel, ip: IpAddr, port: u16) -> Fd {
     fd
 }
 
-fn udp_demux(ip1: IpAddr, p1: u16, ip2: IpAddr, p2: u16) {
+fn udp_demux(ip1: IpAddr, p1: u16, ip2: IpAddr, p2: u16, dst_ip: IpAddr, dst_port: u16) -> (bool, bool, bool) {
     let mut k = Kernel::new();
     k.add_address(A);
     k.add_address(B);
@@ -48,9 +48,10 @@ fn udp_demux(ip1: IpAddr, p1: u16, ip2: IpAddr, p2: u16) {
     if c1 {
         k.sockets.get_mut(f1).unwrap().peer = Some(Addr::Inet(PEER1));
     }
-    let dst_ip = if kani::any() { A } else { B };
-    let dst_port: u16 = if kani::any() { 5000 } else { 5001 };
+    // the destination (the demultiplexing KEY) is concrete per instance; the source address, the
+    // connected-peer flag and the payload are symbolic
     let src = if kani::any() { PEER1 } else { PEER2 };
+    let body: [u8; 2] = kani::any();
     let pkt = Packet {
         src: src.ip(),
         dst: dst_ip,
@@ -58,7 +59,7 @@ fn udp_demux(ip1: IpAddr, p1: u16, ip2: IpAddr, p2: u16) {
         payload: Transport::Udp(UdpDatagram {
             src_port: src.port(),
             dst_port,
-            payload: Bytes::from_static(b"xy"),
+            payload: Bytes::copy_from_slice(&body),
         }),
     };
     let Transport::Udp(d) = &pkt.payload else { unreachable!() };
@@ -95,42 +96,60 @@ fn udp_demux(ip1: IpAddr, p1: u16, ip2: IpAddr, p2: u16) {
     if expect1 {
         let (from, payload) = k.sockets.get(f1).unwrap().recv_queue.front().unwrap();
         assert!(*from == Addr::Inet(src));
-        assert!(payload.len() == 2 && payload[0] == b'x' && payload[1] == b'y');
+        assert!(payload.len() == 2 && payload[0] == body[0] && payload[1] == body[1], "payload unaltered");
     }
     if expect2 {
         let (from, _) = k.sockets.get(f2.unwrap()).unwrap().recv_queue.front().unwrap();
         assert!(*from == Addr::Inet(src));
     }
-    kani::cover!(expect1, "delivered to first socket");
-    kani::cover!(target == Some(f1) && !expect1, "connected filter dropped the datagram");
-    kani::cover!(target.is_none(), "no socket matched");
+    let filtered = target == Some(f1) && !expect1;
     std::mem::forget(k);
     std::mem::forget(pkt);
+    (expect1, expect2, filtered)
 }
 
-// (not shipped: two-socket kernel exceeds 8 GB in SAT conversion) C17 udp_demux desc=exact(A:5000)+wildcard(0.0.0.0:5000)
+// (an exact and a wildcard binding on the SAME port cannot coexist without SO_REUSEADDR, which the
+// kernel does not implement: the bind matrix refuses the second one; tables below are bind-legal)
+// @verif id=C17 tier=quick role=udp_demux timeout=900 desc=exact(A:5000)+wildcard(:5001),dst=A:5000
 crate::verif_proof! { unwind = 6;
-fn c17_udp_demux_exact_then_wild() { udp_demux(A, 5000, WILD, 5000); }
+fn c17_udp_exact_binding_receives_its_datagram() {
+    let (e1, e2, filtered) = udp_demux(A, 5000, WILD, 5001, A, 5000);
+    assert!(!e2, "the other socket must not see it");
+    kani::cover!(e1, "delivered to the exact binding");
+    kani::cover!(filtered, "connected filter dropped the datagram");
 }
-// (not shipped: two-socket kernel exceeds 8 GB in SAT conversion) C17 udp_demux desc=wildcard(0.0.0.0:5000)+exact(B:5000)
-crate::verif_proof! { unwind = 6;
-fn c17_udp_demux_wild_then_exact() { udp_demux(WILD, 5000, B, 5000); }
 }
-// (not shipped: two-socket kernel exceeds 8 GB in SAT conversion) C17 udp_demux mem=40 timeout=1800 desc=exact(A:5000)+exact(B:5000)
+// @verif id=C17 tier=quick role=udp_demux timeout=900 desc=exact(A:5000)+wildcard(:5001),dst=B:5001
 crate::verif_proof! { unwind = 6;
-fn c17_udp_demux_two_exact() { udp_demux(A, 5000, B, 5000); }
+fn c17_udp_wildcard_catches_any_local_address() {
+    let (e1, e2, _) = udp_demux(A, 5000, WILD, 5001, B, 5001);
+    assert!(!e1 && e2);
+    kani::cover!(e2, "delivered to the wildcard binding");
 }
-// (not shipped: two-socket kernel exceeds 8 GB in SAT conversion) C17 udp_demux desc=exact(A:5000)+exact(A:5001)
-crate::verif_proof! { unwind = 6;
-fn c17_udp_demux_two_ports() { udp_demux(A, 5000, A, 5001); }
 }
-// (not shipped: two-socket kernel exceeds 8 GB in SAT conversion) C17 udp_demux desc=wildcard(:5000)+wildcard(:5001)
+// @verif id=C17 tier=quick role=udp_demux timeout=900 desc=exact(A:5000)+exact(B:5000),dst=B:5000
 crate::verif_proof! { unwind = 6;
-fn c17_udp_demux_two_wild() { udp_demux(WILD, 5000, WILD, 5001); }
+fn c17_udp_same_port_different_addresses_do_not_cross() {
+    let (e1, e2, _) = udp_demux(A, 5000, B, 5000, B, 5000);
+    assert!(!e1 && e2);
+    kani::cover!(e2, "delivered to the socket owning the address");
 }
-// (not shipped: two-socket kernel exceeds 8 GB in SAT conversion) C17 udp_demux desc=exact(A:5000)+conflicting-second-bind(A:5000)
+}
+// @verif id=C17 tier=thorough role=udp_demux timeout=900 desc=exact(A:5000)+exact(B:5000),dst=B:5001(no-such-port)
 crate::verif_proof! { unwind = 6;
-fn c17_udp_demux_conflict() { udp_demux(A, 5000, A, 5000); }
+fn c17_udp_unbound_port_reaches_nobody() {
+    let (e1, e2, _) = udp_demux(A, 5000, B, 5000, B, 5001);
+    assert!(!e1 && !e2);
+    kani::cover!(!e1 && !e2, "dropped");
+}
+}
+// @verif id=C17 tier=thorough role=udp_demux timeout=900 desc=exact(A:5000)+wildcard(:5001),dst=A:5001
+crate::verif_proof! { unwind = 6;
+fn c17_udp_wildcard_receives_on_its_port_only() {
+    let (e1, e2, _) = udp_demux(A, 5000, WILD, 5001, A, 5001);
+    assert!(!e1 && e2);
+    kani::cover!(e2, "delivered by port");
+}
 }
 
 // ---------------------------------------------------------------------------------------------------
